@@ -170,6 +170,7 @@ FIXED = [
     ("C08", "9be7359", "`function f(){var g=()=>this; return g()===this} f.call({})` was false and `[1].map(x=>this.v)` inside a method threw: an arrow function ran with the this of its own call"),
     ("C08", "4ee0b2a", "`var k='x'; var o={[k]:1}; o.x` was undefined: a computed key that is an identifier named the property 'k'"),
     ("C13", "1686d29", "`[1,,2].length` was 2 and `[,1].length` 1: elisions in array literals were dropped, shifting every later index"),
+    ("C02", "bbcbe90", "`var a=[]; a.push(a.forEach); a.forEach(a.forEach)` ended in the host's RecursionError: a native used as the callback of a native was called outside the host-depth budget"),
     ("C20", "33cb6fa", "`'baa'.search(/a/y)` was 1, `'baa'.match(/a/y)` matched, `'aaba'.replace(/a/gy,'x')` was 'xxbx' (a sticky regex matches only where it starts); `var r=/a/g; r.lastIndex=1; 'aaaa'.match(r); r.lastIndex` stayed 1 and a failed global match or replace left lastIndex as it was (global match/replace start at 0 and leave 0); a sticky non-global match/replace did not advance or reset lastIndex"),
 ]
 
